@@ -1,4 +1,256 @@
+"""Kani units: harness modules overlaid on a COPY of the working tree, `cargo kani` on the real
+crates, result parsing, concrete playback as replay."""
+import json
+import os
+import re
+import shutil
+import subprocess
+import time
+
+CRATE_FLAGS = {
+    'kolibrie': ['-Z', 'unstable-options', '--ignore-global-asm'],
+}
+
+
+def _env():
+    env = dict(os.environ)
+    env['CARGO_NET_OFFLINE'] = 'true'
+    env.pop('RUSTUP_TOOLCHAIN', None)
+    return env
+
+
+def mount(src, BUILD, VERIF, pid, ku):
+    """copy harness file next to the build and append the cfg(kani) mod line to the mount file (in the copy)."""
+    hsrc = os.path.join(VERIF, ku['file'])
+    hdir = os.path.join(BUILD, pid, 'kani')
+    os.makedirs(hdir, exist_ok=True)
+    hdst = os.path.join(hdir, os.path.basename(ku['file']))
+    shutil.copy(hsrc, hdst)
+    mfile = os.path.join(src, ku['mount'])
+    if not os.path.exists(mfile):
+        return None, 'anchor drift: mount file %s missing' % ku['mount']
+    line = '\n#[cfg(kani)] #[path = "%s"] mod %s;\n' % (hdst, ku['module'])
+    txt = open(mfile, encoding='utf-8').read()
+    if line.strip() not in txt:
+        with open(mfile, 'a', encoding='utf-8') as f:
+            f.write(line)
+    return hdst, None
+
+
+CHECK_RE = re.compile(r'Check (\d+): (\S+)\s*\n\s*- Status: (\w+)\s*\n\s*- Description: "(.*)"\s*\n(?:\s*- Location: (.*)\n)?')
+
+
+def parse_output(out):
+    """-> {harness: dict(checks=[...], verdict='SUCCESSFUL'|'FAILED'|None, time=float)}"""
+    res = {}
+    parts = re.split(r'^Checking harness (\S+?)\.\.\.\s*$', out, flags=re.M)
+    # parts: [pre, name1, body1, name2, body2...]
+    for i in range(1, len(parts), 2):
+        name = parts[i]
+        body = parts[i + 1]
+        checks = []
+        for m in CHECK_RE.finditer(body):
+            checks.append(dict(n=int(m.group(1)), name=m.group(2), status=m.group(3), desc=m.group(4).strip('"'), loc=(m.group(5) or '').strip()))
+        vm = re.search(r'VERIFICATION:- (\w+)', body)
+        tm = re.search(r'Verification Time: ([\d.]+)s', body)
+        res[name.split('::')[-1]] = dict(full=name, checks=checks, verdict=vm.group(1) if vm else None, time=float(tm.group(1)) if tm else None,
+                                         unwinding_failed=bool(re.search(r'unwinding assertion', body) and re.search(r'Status: FAILURE\s*\n\s*- Description: "unwinding assertion', body)))
+    return res
+
+
+def run_kani(src, BUILD, crate, harnesses, extra_flags, timeout, log_path, jobs=None):
+    cmd = ['cargo', 'kani', '-p', crate, '--target-dir', os.path.join(BUILD, 'kani-target-' + crate)]
+    cmd += CRATE_FLAGS.get(crate, [])
+    cmd += extra_flags
+    for h in harnesses:
+        cmd += ['--harness', h]
+    if jobs and len(harnesses) > 1:
+        cmd += ['-j', str(jobs), '--output-format', 'regular']
+    t0 = time.time()
+    with open(log_path, 'w') as lf:
+        try:
+            p = subprocess.run(cmd, cwd=src, env=_env(), stdout=lf, stderr=subprocess.STDOUT, timeout=timeout)
+            rc = p.returncode
+        except subprocess.TimeoutExpired:
+            rc = None
+    out = open(log_path, errors='replace').read()
+    return dict(cmd='CARGO_NET_OFFLINE=true ' + ' '.join(cmd), rc=rc, out=out, wall_s=time.time() - t0)
+
+
 def run_kani_unit(res, ku, src, tier, BUILD, VERIF):
-    raise NotImplementedError
-def setup(BUILD, VERIF, REPO):
+    pid = res.pid
+    info = dict(unit=ku['name'], back_end='kani/cbmc', crate=ku['crate'], harnesses=ku['harnesses'], strength=ku.get('strength', 'Pfull'), status='?')
+    res.units.append(info)
+    hdst, err = mount(src, BUILD, VERIF, pid, ku)
+    if err:
+        info['status'] = 'undecided'
+        res.undecided.append('unit %s: %s' % (ku['name'], err))
+        return
+    log = os.path.join(BUILD, pid, 'kani', ku['name'] + '.log')
+    timeout = ku.get('timeout_s', 1800)
+    r = run_kani(src, BUILD, ku['crate'], ku['harnesses'], ku.get('flags', []), timeout, log, jobs=ku.get('jobs'))
+    res.checker_cmds.append(r['cmd'])
+    info['wall_s'] = round(r['wall_s'], 1)
+    info['log'] = log
+    if r['rc'] is None:
+        info['status'] = 'undecided'
+        res.undecided.append('unit %s: cargo kani timed out after %ds (bound not completed - not a pass)' % (ku['name'], timeout))
+        return
+    parsed = parse_output(r['out'])
+    if not parsed:
+        info['status'] = 'undecided'
+        tail = re.sub(r'\s+', ' ', r['out'][-600:])
+        res.undecided.append('unit %s: kani produced no harness results (build failure of the copied tree or anchor drift): %s' % (ku['name'], tail))
+        return
+    n_checks = n_ok = 0
+    failed = []
+    undet = []
+    covers_bad = []
+    for h in ku['harnesses']:
+        hr = parsed.get(h)
+        if hr is None:
+            undet.append('%s: no result' % h)
+            continue
+        res.solver_s += hr['time'] or 0.0
+        for c in hr['checks']:
+            if '.cover.' in c['name'] or c['status'] in ('SATISFIED', 'UNSATISFIABLE', 'UNREACHABLE') and 'cover' in c['name']:
+                if c['status'] != 'SATISFIED':
+                    covers_bad.append('%s: cover "%s" %s' % (h, c['desc'], c['status']))
+                continue
+            n_checks += 1
+            if c['status'] == 'SUCCESS':
+                n_ok += 1
+            elif c['status'] == 'FAILURE':
+                if c['desc'].startswith('unwinding assertion'):
+                    undet.append('%s: unwinding assertion failed (bound too small): %s' % (h, c['loc']))
+                else:
+                    failed.append((h, c))
+            elif c['status'] == 'UNREACHABLE':
+                n_ok += 1   # vacuously true check on dead code; counted, reported separately
+                info['unreachable_checks'] = info.get('unreachable_checks', 0) + 1
+            else:
+                undet.append('%s: check %s is %s (%s)' % (h, c['name'], c['status'], c['desc'][:80]))
+        if hr['verdict'] is None:
+            undet.append('%s: no verdict' % h)
+        info.setdefault('per_harness', {})[h] = dict(checks=len(hr['checks']), verdict=hr['verdict'], time_s=hr['time'])
+        if len(res.samples) < 12 and hr['checks']:
+            c0 = [c for c in hr['checks'] if c['desc'] and 'assertion' in c['name']][:2]
+            for c in c0:
+                res.samples.append(dict(obligation='kani %s' % h, clause=c['desc'], status=c['status']))
+    res.obligations += n_checks
+    res.discharged += n_ok
+    info['checks'] = n_checks
+    info['checks_ok'] = n_ok
+    for f in ku.get('functions', []):
+        res.functions.append(dict(file=f['file'], fn=f['fn'], back_end='kani/cbmc', strength=ku.get('strength', 'Pfull'), harnesses=ku['harnesses'],
+                                  rewrites=[], clauses=[]))
+    if failed:
+        info['status'] = 'violation'
+        seen = set()
+        for h, c in failed:
+            ob = '%s/%s :: %s' % (ku['name'], h, c['desc'] or c['name'])
+            if ob in seen:
+                continue
+            seen.add(ob)
+            v = dict(unit=ku['name'], fn=h, clause=c['desc'] or c['name'], obligation=ob, reason='kani FAILURE: ' + c['name'], where=c['loc'],
+                     rendered='Check %d: %s\n - Status: FAILURE\n - Description: "%s"\n - Location: %s' % (c['n'], c['name'], c['desc'], c['loc']), back_end='kani')
+            res.violations.append(v)
+        # concrete playback per failing harness
+        for h in sorted(set(h for h, _ in failed)):
+            pb = playback(src, BUILD, pid, ku, h)
+            for v in res.violations:
+                if v.get('unit') == ku['name'] and v.get('fn') == h and pb:
+                    v['witness'] = pb
+                    rp = os.path.join(VERIF, 'replay', '%s_%s.json' % (pid, re.sub(r'\W+', '_', v['obligation'])[:80]))
+                    json.dump(dict(property=pid, kind='kani-playback', obligation=v['obligation'], unit=ku['name'], harness=h, ku=ku,
+                                   verifier_reason=v['reason'], verifier_output=v['rendered'], witness=pb), open(rp, 'w'), indent=1)
+                    v['replay'] = rp
+        return
+    if undet or covers_bad:
+        info['status'] = 'undecided'
+        for u in (undet + covers_bad)[:5]:
+            res.undecided.append('unit %s: %s' % (ku['name'], u))
+        return
+    if n_checks == 0:
+        info['status'] = 'undecided'
+        res.undecided.append('unit %s: zero checks generated' % ku['name'])
+        return
+    info['status'] = 'pass'
+
+
+def playback(src, BUILD, pid, ku, harness):
+    """re-run the failing harness with concrete playback, inject the generated unit test into the COPY of the
+    harness file and execute it natively against the copied tree.  Returns witness dict or None."""
+    log = os.path.join(BUILD, pid, 'kani', ku['name'] + '.' + harness + '.playback.log')
+    flags = list(ku.get('flags', [])) + ['-Z', 'concrete-playback', '--concrete-playback=inplace']
+    r = run_kani(src, BUILD, ku['crate'], [harness], flags, ku.get('timeout_s', 1800), log)
+    hfile = os.path.join(BUILD, pid, 'kani', os.path.basename(ku['file']))
+    txt = open(hfile, encoding='utf-8').read()
+    m = re.search(r'fn (kani_concrete_playback_%s\w*)\s*\(\)\s*\{(.*?)\n\s*\}\s*\n' % re.escape(harness), txt, re.S)
+    if not m:
+        return None
+    test_name = m.group(1)
+    test_src = m.group(0)
+    # run natively
+    cmd = ['cargo', 'kani', 'playback', '-Z', 'concrete-playback', '-p', ku['crate']]
+    cmd += ['--', test_name]
+    env = _env()
+    env['CARGO_TARGET_DIR'] = os.path.join(BUILD, 'kani-playback-target')
+    env['CARGO_PROFILE_DEV_LTO'] = 'off'
+    env['CARGO_PROFILE_TEST_LTO'] = 'off'
+    env['RUST_BACKTRACE'] = '0'
+    log2 = os.path.join(BUILD, pid, 'kani', ku['name'] + '.' + harness + '.native.log')
+    try:
+        p = subprocess.run(cmd, cwd=src, env=env, capture_output=True, text=True, timeout=3600)
+        out = p.stdout + p.stderr
+    except subprocess.TimeoutExpired:
+        out = 'timeout'
+    open(log2, 'w').write(out)
+    reproduced = bool(re.search(r'test \S*%s \.\.\. FAILED' % re.escape(test_name), out))
+    pm = re.search(r"panicked at [^\n]*\n([^\n]*)", out)
+    return dict(kind='kani-playback', harness=harness, test=test_name, concrete_test=test_src, reproduced_natively=reproduced,
+                panic=pm.group(1).strip() if pm else '', cmd='CARGO_NET_OFFLINE=true CARGO_PROFILE_DEV_LTO=off CARGO_PROFILE_TEST_LTO=off ' + ' '.join(cmd))
+
+
+def replay(pid, d, BUILD, VERIF, REPO):
+    import main as M
+    src = M.sync_tree(pid)
+    ku = d['ku']
+    hdst, err = mount(src, BUILD, VERIF, pid, ku)
+    if err:
+        print('UNDECIDED', err)
+        return 2
+    # append the recorded concrete test to the copied harness file and run it natively
+    with open(hdst, 'a', encoding='utf-8') as f:
+        f.write('\n#[test]\n' + d['witness']['concrete_test'] + '\n')
+    cmd = ['cargo', 'kani', 'playback', '-Z', 'concrete-playback', '-p', ku['crate'], '--', d['witness']['test']]
+    env = _env()
+    env['CARGO_TARGET_DIR'] = os.path.join(BUILD, 'kani-playback-target')
+    env['CARGO_PROFILE_DEV_LTO'] = 'off'
+    env['CARGO_PROFILE_TEST_LTO'] = 'off'
+    p = subprocess.run(cmd, cwd=src, env=env, capture_output=True, text=True)
+    out = p.stdout + p.stderr
+    print(out[-3000:])
+    if re.search(r'test \S*%s \.\.\. FAILED' % re.escape(d['witness']['test']), out):
+        print('REPLAYED property=%s obligation="%s"' % (pid, d['obligation']))
+        return 1
+    print('NOT-REPRODUCED property=%s obligation="%s"' % (pid, d['obligation']))
     return 0
+
+
+def setup(BUILD, VERIF, REPO):
+    """warm the Kani target directories (dependencies only need building once)."""
+    import main as M
+    cfg = M.load_config()
+    rc = 0
+    crates = {}
+    for pid, pc in cfg.items():
+        for ku in pc.get('kani', []):
+            crates.setdefault(ku['crate'], (pid, ku))
+    for crate, (pid, ku) in crates.items():
+        src = M.sync_tree(pid)
+        hdst, err = mount(src, BUILD, VERIF, pid, ku)
+        log = os.path.join(BUILD, pid, 'kani', 'setup.log')
+        r = run_kani(src, BUILD, crate, ['verif_no_such_harness_warmup'], ['--only-codegen'] + ku.get('flags', []), 3600, log)
+        print('setup: warmed kani target for crate %s in %.0fs (rc=%s)' % (crate, r['wall_s'], r['rc']))
+    return rc
